@@ -5,9 +5,9 @@ sys.path.insert(0, os.path.join(os.path.dirname(os.path.abspath(__file__)), ".."
 from vlib import *
 
 
-def idl_cfg(maxdecls, tricky, emit_at, constraint=False):
-    return ("SPECIFICATION Spec\nCONSTANTS MaxDecls = %d Tricky = %s EmitAt = %d WithBreaks = FALSE Hard = \"none\"\nINVARIANTS AlwaysValid Emit\n%sCHECK_DEADLOCK FALSE\n"
-            % (maxdecls, tricky, emit_at, "CONSTRAINT Bounded\n" if constraint else ""))
+def idl_cfg(maxdecls, tricky, emit_at, constraint=False, focus="all"):
+    return ("SPECIFICATION Spec\nCONSTANTS MaxDecls = %d Tricky = %s EmitAt = %d WithBreaks = FALSE Focus = \"%s\" Hard = \"none\"\nINVARIANTS AlwaysValid Emit\n%sCHECK_DEADLOCK FALSE\n"
+            % (maxdecls, tricky, emit_at, focus, "CONSTRAINT Bounded\n" if constraint else ""))
 
 
 def progs_of(r):
@@ -26,7 +26,7 @@ def run(ctx):
                 "list, map, enum value), structs / unions / exceptions with fields of every requiredness, defaults and an annotation, "
                 "services with extends / oneway / arguments / throws, scopes with prefixes and variables), identifier pools with and "
                 "without names that start with keywords; all programs after 1 (thorough 2) steps exhaustively plus the successors along "
-                "random walks of 14 (thorough 22) steps; each rendered in 6 lexical styles (the first 200 in all, the rest in 2): "
+                "random walks of 14 (thorough 22) steps, plus, one family of declarations at a time (enums with their values; scopes with prefixes and operations; typedefs over enums; uses of a two-level typedef chain over an enum as field, default Enum.VALUE, argument, result, operation), every program reachable in 4 / 2 / 2 / 1 (thorough 5 / 3 / 3 / 1) steps; each rendered in 6 lexical styles (the first 200 in all, the rest in 2): "
                 "',' / ';' / no separators, '//' '#' inline and multi-line '/* */' comments, both quote styles, blank lines, and "
                 "Thrift-style declarations on one line; parsed by parser.ParseFrugal and compared with the abstract program (enum "
                 "numbering per Thrift, union members optional). non-trivial = program with >= 3 declarations; distinct = distinct programs")
@@ -48,6 +48,12 @@ def run(ctx):
                 raise MachineryError("IDL simulation failed: " + r.out[-1500:])
             progs += progs_of(r)
         ctx.seed = old
+    # one family of declarations at a time, exhaustively and several steps deep (every state is a program)
+    for focus, depth in (("enums", 5 if thorough else 4), ("scopes", 3 if thorough else 2), ("typedefs", 3 if thorough else 2), ("enumrefs", 1), ("annotations", 4)):
+        r = ctx.tlc_must_hold("IDL", "i.cfg", cfg_text=idl_cfg(2, "FALSE", depth, constraint=True, focus=focus), workers=NCPU, timeout=2400, heap="10g")
+        fp = progs_of(r)
+        ctx.extra["focus_" + focus] = len(fp)
+        progs += fp
     progs = list(dict.fromkeys(progs))
     inp = os.path.join(ctx.scratch, "idl_progs.ndjson")
     open(inp, "w").write("\n".join(progs) + "\n")
